@@ -125,9 +125,11 @@ type usagePair struct {
 
 // updateUsageQueue zeroes the accumulated usage all ActiveUsers valve and put the usage data im usageUpdateQueue
 func (panel *userPanel) updateUsageQueue() {
-	panel.activeUsersM.Lock()
-	common.VerifPoint("usage.firstLockHeld")
+	// lock order: usageUpdateQueueM before activeUsersM, as in commitUpdate. Taking them the other way
+	// round deadlocked the panel (and with it every new connection) when two upload rounds overlapped
 	panel.usageUpdateQueueM.Lock()
+	common.VerifPoint("usage.firstLockHeld")
+	panel.activeUsersM.Lock()
 	for _, user := range panel.activeUsers {
 		if user.bypass {
 			continue
